@@ -11,16 +11,18 @@ import (
 	"fmt"
 	"sort"
 	"strings"
+	"sync"
+	"sync/atomic"
 
 	"github.com/atomix/go-sdk/pkg/test"
 	adminapi "github.com/onosproject/onos-api/go/onos/config/admin"
 	configv2 "github.com/onosproject/onos-api/go/onos/config/v2"
 	configapi "github.com/onosproject/onos-api/go/onos/config/v3"
 	topoapi "github.com/onosproject/onos-api/go/onos/topo"
+	ctlutils "github.com/onosproject/onos-config/pkg/controller/utils"
 	cfgctl "github.com/onosproject/onos-config/pkg/controller/v3/configuration"
 	mastctl "github.com/onosproject/onos-config/pkg/controller/v3/mastership"
 	txctl "github.com/onosproject/onos-config/pkg/controller/v3/transaction"
-	ctlutils "github.com/onosproject/onos-config/pkg/controller/utils"
 	"github.com/onosproject/onos-config/pkg/pluginregistry"
 	sb "github.com/onosproject/onos-config/pkg/southbound/gnmi"
 	cfgstore "github.com/onosproject/onos-config/pkg/store/v3/configuration"
@@ -33,6 +35,7 @@ import (
 	"github.com/onosproject/onos-lib-go/pkg/logging"
 	baseClient "github.com/openconfig/gnmi/client"
 	gpb "github.com/openconfig/gnmi/proto/gnmi"
+	"google.golang.org/grpc"
 	"google.golang.org/grpc/codes"
 	"google.golang.org/grpc/status"
 )
@@ -41,7 +44,84 @@ func init() {
 	logging.SetLevel(logging.FatalLevel)
 }
 
-var theTarget = configapi.Target{ID: "t1", Type: "ty", Version: "1"}
+// every case gets a target of its own (the atomix test node and the stores are shared between the
+// cases of one process: a node per case leaks about 25 MB and 85 goroutines, see env below)
+var targetSeq atomic.Uint64
+
+func newTarget() configapi.Target {
+	return configapi.Target{ID: configapi.TargetID(fmt.Sprintf("t%d", targetSeq.Add(1))), Type: "ty", Version: "1"}
+}
+
+// env is one in-process atomix node with the two raw v3 stores on it; cases use it one after the
+// other, each under its own target id (all keys, logs and side maps of the v3 stores are per target).
+// oneConn hands the single runtime connection of the environment to every primitive (as the
+// sidecar does in production); test.Client.Connect would start a new runtime with four in-memory
+// connections (about 8 MB of pipe buffers) for every primitive, and the v3 stores open three
+// primitives per target and never close them.
+type oneConn struct {
+	inner *test.Client
+	mu    sync.Mutex
+	conn  *grpc.ClientConn
+}
+
+func (c *oneConn) Connect(ctx context.Context) (*grpc.ClientConn, error) {
+	c.mu.Lock()
+	defer c.mu.Unlock()
+	if c.conn == nil {
+		conn, err := c.inner.Connect(ctx)
+		if err != nil {
+			return nil, err
+		}
+		c.conn = conn
+	}
+	return c.conn, nil
+}
+
+type env struct {
+	cl     *test.Client
+	rawTx  txstore.Store
+	rawCfg cfgstore.Store
+	uses   int
+}
+
+var envLife = 500
+
+var (
+	envMu   sync.Mutex
+	envFree []*env
+)
+
+func acquireEnv() (*env, error) {
+	envMu.Lock()
+	if n := len(envFree); n > 0 {
+		e := envFree[n-1]
+		envFree = envFree[:n-1]
+		envMu.Unlock()
+		return e, nil
+	}
+	envMu.Unlock()
+	e := &env{cl: test.NewClient()}
+	shared := &oneConn{inner: e.cl}
+	var err error
+	if e.rawTx, err = txstore.NewAtomixStore(shared); err != nil {
+		return nil, err
+	}
+	if e.rawCfg, err = cfgstore.NewAtomixStore(shared); err != nil {
+		return nil, err
+	}
+	return e, nil
+}
+
+func releaseEnv(e *env) {
+	e.uses++
+	if e.uses >= envLife {
+		e.cl.Close()
+		return
+	}
+	envMu.Lock()
+	envFree = append(envFree, e)
+	envMu.Unlock()
+}
 
 // ---------------------------------------------------------------------------------------------
 // device + connection fakes
@@ -119,6 +199,7 @@ func (d *device) set(r *gpb.SetRequest) (*gpb.SetResponse, error) {
 type fakeConn struct {
 	id  sb.ConnID
 	dev *device
+	tgt configapi.Target
 }
 
 func (c *fakeConn) Close() error { return nil }
@@ -141,18 +222,19 @@ func (c *fakeConn) SetWithString(ctx context.Context, request string) (*gpb.SetR
 	return nil, errors.NewNotSupported("not used")
 }
 func (c *fakeConn) Subscribe(ctx context.Context, q baseClient.Query) error { return nil }
-func (c *fakeConn) Poll() error                                              { return nil }
-func (c *fakeConn) ID() sb.ConnID                                            { return c.id }
-func (c *fakeConn) TargetID() topoapi.ID                                     { return topoapi.ID(theTarget.ID) }
+func (c *fakeConn) Poll() error                                             { return nil }
+func (c *fakeConn) ID() sb.ConnID                                           { return c.id }
+func (c *fakeConn) TargetID() topoapi.ID                                    { return topoapi.ID(c.tgt.ID) }
 
 type fakeConns struct {
 	present map[string]bool
 	dev     *device
+	tgt     configapi.Target
 }
 
 func (m *fakeConns) Get(ctx context.Context, connID sb.ConnID) (sb.Conn, bool) {
 	if m.present[string(connID)] {
-		return &fakeConn{id: connID, dev: m.dev}, true
+		return &fakeConn{id: connID, dev: m.dev, tgt: m.tgt}, true
 	}
 	return nil, false
 }
@@ -170,6 +252,7 @@ type fakeTopo struct {
 	entity     bool
 	persistent bool
 	rels       map[string]bool
+	tgt        configapi.Target
 }
 
 func (t *fakeTopo) Create(ctx context.Context, object *topoapi.Object) error { return nil }
@@ -181,15 +264,15 @@ func (t *fakeTopo) Watch(ctx context.Context, ch chan<- topoapi.Event, filters *
 func (t *fakeTopo) relation(id string) *topoapi.Object {
 	return &topoapi.Object{ID: topoapi.ID(id), Type: topoapi.Object_RELATION,
 		Obj: &topoapi.Object_Relation{Relation: &topoapi.Relation{KindID: topoapi.CONTROLS,
-			SrcEntityID: ctlutils.GetOnosConfigID(), TgtEntityID: topoapi.ID(theTarget.ID)}}}
+			SrcEntityID: ctlutils.GetOnosConfigID(), TgtEntityID: topoapi.ID(t.tgt.ID)}}}
 }
 func (t *fakeTopo) Get(ctx context.Context, id topoapi.ID) (*topoapi.Object, error) {
-	if string(id) == string(theTarget.ID) {
+	if string(id) == string(t.tgt.ID) {
 		if !t.entity {
 			return nil, errors.NewNotFound("no entity")
 		}
 		o := &topoapi.Object{ID: id, Type: topoapi.Object_ENTITY, Obj: &topoapi.Object_Entity{Entity: &topoapi.Entity{}}}
-		_ = o.SetAspect(&topoapi.Configurable{Type: string(theTarget.Type), Version: string(theTarget.Version), Persistent: t.persistent})
+		_ = o.SetAspect(&topoapi.Configurable{Type: string(t.tgt.Type), Version: string(t.tgt.Version), Persistent: t.persistent})
 		return o, nil
 	}
 	if t.rels[string(id)] {
@@ -220,7 +303,9 @@ func (t *fakeTopo) List(ctx context.Context, filters *topoapi.Filters) ([]topoap
 
 type fakePlugin struct{ w *world }
 
-func (p *fakePlugin) GetInfo() *pluginregistry.ModelPluginInfo { return &pluginregistry.ModelPluginInfo{} }
+func (p *fakePlugin) GetInfo() *pluginregistry.ModelPluginInfo {
+	return &pluginregistry.ModelPluginInfo{}
+}
 func (p *fakePlugin) Capabilities(ctx context.Context) *gpb.CapabilityResponse {
 	return &gpb.CapabilityResponse{}
 }
@@ -248,7 +333,7 @@ func (r *fakePlugins) GetPlugin(model configv2.TargetType, version configv2.Targ
 	}
 	return &fakePlugin{w: r.w}, true
 }
-func (r *fakePlugins) GetPlugins() []pluginregistry.ModelPlugin { return nil }
+func (r *fakePlugins) GetPlugins() []pluginregistry.ModelPlugin                            { return nil }
 func (r *fakePlugins) NewClientFn(func(string) (adminapi.ModelPluginServiceClient, error)) {}
 
 // ---------------------------------------------------------------------------------------------
@@ -392,7 +477,8 @@ func (d *txDecor) UpdateStatus(ctx context.Context, t *configapi.Transaction) er
 // ---------------------------------------------------------------------------------------------
 
 type world struct {
-	cl        *test.Client
+	env       *env
+	target    configapi.Target
 	rawTx     txstore.Store
 	rawCfg    cfgstore.Store
 	txs       *txDecor
@@ -420,13 +506,14 @@ func newWorld() *world {
 }
 
 func (w *world) close() {
-	if w.cl != nil && !w.closed {
+	if w.env != nil && !w.closed {
 		w.closed = true
-		w.cl.Close()
+		releaseEnv(w.env)
+		w.env = nil
 	}
 }
 
-func cfgID() configapi.ConfigurationID { return configapi.ConfigurationID{Target: theTarget} }
+func (w *world) cfgID() configapi.ConfigurationID { return configapi.ConfigurationID{Target: w.target} }
 
 // init creates fresh stores and the configuration record (Status.Mastership set).
 // seed 0: no initial value (Committed.Values is nil when read back);
@@ -435,19 +522,17 @@ func cfgID() configapi.ConfigurationID { return configapi.ConfigurationID{Target
 func (w *world) init(seed int) error {
 	w.close()
 	w.closed = false
-	w.cl = test.NewClient()
-	var err error
-	if w.rawTx, err = txstore.NewAtomixStore(w.cl); err != nil {
+	e, err := acquireEnv()
+	if err != nil {
 		return err
 	}
-	if w.rawCfg, err = cfgstore.NewAtomixStore(w.cl); err != nil {
-		return err
-	}
+	w.env, w.rawTx, w.rawCfg = e, e.rawTx, e.rawCfg
+	w.target = newTarget()
 	w.txs = &txDecor{Store: w.rawTx, w: w}
 	w.cfgs = &cfgDecor{Store: w.rawCfg, w: w}
 	w.dev = &device{up: true, epoch: 1, values: map[string]string{}, mode: "ok"}
-	w.topo = &fakeTopo{entity: true, rels: map[string]bool{}}
-	w.conns = &fakeConns{present: map[string]bool{}, dev: w.dev}
+	w.topo = &fakeTopo{entity: true, rels: map[string]bool{}, tgt: w.target}
+	w.conns = &fakeConns{present: map[string]bool{}, dev: w.dev, tgt: w.target}
 	w.verdict = "valid"
 	w.ntx = 0
 	w.prev = nil
@@ -456,7 +541,7 @@ func (w *world) init(seed int) error {
 	w.rec = txctl.NewReconcilerForVerif(configapi.NodeID(ctlutils.GetOnosConfigID()), w.txs, w.cfgs, w.conns, w.topo, plugins)
 	w.crec = cfgctl.NewReconcilerForVerif(w.topo, w.conns, w.cfgs)
 	w.mrec = mastctl.NewReconcilerForVerif(w.topo, w.cfgs)
-	c := &configapi.Configuration{ID: cfgID()}
+	c := &configapi.Configuration{ID: w.cfgID()}
 	c.Status.Mastership = &configapi.MastershipStatus{}
 	seedVals := map[string]configapi.PathValue{seedPath: {Path: seedPath, Value: strVal("0")}}
 	if seed == 2 {
@@ -481,7 +566,7 @@ func strVal(s string) configapi.TypedValue {
 // nbAppend is the northbound stand-in for spec/Transaction.tla AppendChange.
 func (w *world) nbAppend(vals map[string]configapi.PathValue) error {
 	t := &configapi.Transaction{
-		ID:     configapi.TransactionID{Target: theTarget},
+		ID:     configapi.TransactionID{Target: w.target},
 		Values: vals,
 		Status: configapi.TransactionStatus{
 			Phase: configapi.TransactionStatus_CHANGE,
@@ -502,7 +587,7 @@ func (w *world) nbAppend(vals map[string]configapi.PathValue) error {
 // transaction is in the Change phase with its change commit Complete.
 func (w *world) nbRollback(i uint64) string {
 	ctx := context.Background()
-	t, err := w.rawTx.Get(ctx, configapi.TransactionID{Target: theTarget, Index: configapi.Index(i)})
+	t, err := w.rawTx.Get(ctx, configapi.TransactionID{Target: w.target, Index: configapi.Index(i)})
 	if err != nil {
 		return "refused"
 	}
@@ -545,7 +630,7 @@ func (w *world) stepTx(i uint64, verdict, dev, plan string) (out string) {
 			out = "panic " + panicClass(fmt.Sprint(r))
 		}
 	}()
-	res, err := w.rec.Reconcile(controller.NewID(configapi.TransactionID{Target: theTarget, Index: configapi.Index(i)}))
+	res, err := w.rec.Reconcile(controller.NewID(configapi.TransactionID{Target: w.target, Index: configapi.Index(i)}))
 	return resString(res, err) + " w=" + strings.Join(w.inj.trace, "")
 }
 
@@ -570,7 +655,7 @@ func (w *world) stepCfg(dev, plan string) (out string) {
 		}
 	}()
 	from := len(w.dev.log)
-	res, err := w.crec.Reconcile(controller.NewID(cfgID()))
+	res, err := w.crec.Reconcile(controller.NewID(w.cfgID()))
 	// the order in which the index groups reached the device is Go map order: name it by positions
 	// in the sorted list of rendered requests
 	if sent := w.dev.log[from:]; len(sent) > 1 && sent[0].answer == "ok" {
@@ -605,11 +690,11 @@ func (w *world) stepMast(plan string) (out string) {
 		}
 	}()
 	before := ""
-	if c, e := w.rawCfg.Get(context.Background(), cfgID()); e == nil && c.Status.Mastership != nil {
+	if c, e := w.rawCfg.Get(context.Background(), w.cfgID()); e == nil && c.Status.Mastership != nil {
 		before = string(c.Status.Mastership.Master)
 	}
-	res, err := w.mrec.Reconcile(controller.NewID(cfgID()))
-	if c, e := w.rawCfg.Get(context.Background(), cfgID()); e == nil && c.Status.Mastership != nil {
+	res, err := w.mrec.Reconcile(controller.NewID(w.cfgID()))
+	if c, e := w.rawCfg.Get(context.Background(), w.cfgID()); e == nil && c.Status.Mastership != nil {
 		if m := string(c.Status.Mastership.Master); m != before && m != "" {
 			w.hints = append(w.hints, "pick="+m)
 		}
